@@ -63,6 +63,10 @@ def gen_case(tape, tier):
         "shared_exc": bool(tape.coin(0.3, "shared-exc")),
         "max_plans": 40 if tier == "quick" else 120,
     }
+    if kind in ("call", "run") and tape.coin(0.25, "uncopyable-arg"):
+        roots = sorted(root_kwargs(w, output))
+        if roots:
+            cfg["uncopyable_arg"] = tape.pick(roots, "uncopyable-which")  # like a lock or an open file passed through
     return {"mode": "enumerate", "workload": w, "config": cfg}
 
 
@@ -103,6 +107,15 @@ def _planned_ids(faults):
         m = make_exc(f["exc"])
         out.append(_exc_id(m))
     return out
+
+
+def _kwargs(w, cfg):
+    from sim.userfuncs import Uncopyable
+
+    kw = root_kwargs(w, cfg["output"])
+    if cfg.get("uncopyable_arg") in kw:
+        kw[cfg["uncopyable_arg"]] = Uncopyable(cfg["uncopyable_arg"])
+    return kw
 
 
 def args_to_json(args):
@@ -156,9 +169,9 @@ def run_plan(w, cfg, faults, ref, tape, gens, then=None):
 
                 def main():
                     if kind == "call":
-                        return p(cfg["output"], **root_kwargs(w, cfg["output"]))
+                        return p(cfg["output"], **_kwargs(w, cfg))
                     if kind == "run":
-                        return p.run(cfg["output"], full_output=True, kwargs=root_kwargs(w, cfg["output"]))
+                        return p.run(cfg["output"], full_output=True, kwargs=_kwargs(w, cfg))
                     inputs = build_inputs(w)
                     kw = dict(run_folder=folder, storage=C.storage_arg(cfg["storage"]), **map_kwargs(w))
                     if kind == "map-seq":
@@ -373,7 +386,10 @@ def _check_snapshot(p, w, fired, err, root, V, raised_calls):
         if _exc_id(snap.exception) not in planned:
             V("snapshot", "snapshot-exception-differs", {"fn": f.fn, "got": repr(_exc_id(snap.exception))})
             return
-        for label, s in (("direct", snap), ("saved", None)):
+        from sim.userfuncs import Uncopyable
+
+        unsavable = any(isinstance(v2, Uncopyable) for v2 in snap.kwargs.values())  # cannot be pickled by nature
+        for label, s in (("direct", snap),) + (() if unsavable else (("saved", None),)):
             if s is None:
                 path = os.path.join(root, f"snap-{f.fn}.pkl")
                 try:
@@ -441,7 +457,7 @@ def _reference(w, cfg):
         try:
             with sim:
                 p = build_pipeline(w)
-                sim.kernel.run(lambda: p(cfg["output"], **root_kwargs(w, cfg["output"])))
+                sim.kernel.run(lambda: p(cfg["output"], **_kwargs(w, cfg)))
             ref.calls = list(sim.calls)
         except Exception as e:  # noqa: BLE001
             ref.error = e
